@@ -116,3 +116,64 @@ func H_C16_history_vs_model() {
 	}
 	verifReach("C16.history.end")
 }
+
+// the per-event material (wrapper derived from the event id, the event's salt and info) reaches every protected value of the
+// event, wherever the payload walker finds it: a direct field, behind a pointer, in a slice of structs, in a struct or a
+// slice of structs stored in a map
+type evItem struct {
+	H string `class:"sensitive,hmac-sha256"`
+}
+
+type evDeep struct {
+	id   string
+	salt []byte
+	info []byte
+	Tok  string `class:"sensitive,hmac-sha256"`
+	P    *evItem
+	L    []evItem
+	M    map[string]interface{}
+}
+
+func (p *evDeep) EventId() string  { return p.id }
+func (p *evDeep) HmacSalt() []byte { return p.salt }
+func (p *evDeep) HmacInfo() []byte { return p.info }
+
+func H_C16_event_material_everywhere() {
+	ctx := context.Background()
+	w := mkWrapper("w0")
+	ef := &Filter{Wrapper: w, HmacSalt: []byte{1}, HmacInfo: []byte{4}}
+	id := nondetString()
+	verifAssume(id != "")
+	es, ei := []byte{7}, []byte{8}
+	a, b, c, d, f := nondetString(), nondetString(), nondetString(), nondetString(), nondetString()
+	in := &evDeep{id: id, salt: es, info: ei, Tok: a, P: &evItem{H: b}, L: []evItem{{H: c}},
+		M: map[string]interface{}{"one": &evItem{H: d}, "many": []evItem{{H: f}}}}
+	out, err := ef.Process(ctx, newEvent(in))
+	if err != nil || out == nil {
+		return
+	}
+	op, ok := out.Payload.(*evDeep)
+	verifAssert(ok, "C16.everywhere.payload-type-kept")
+	if !ok || op.P == nil || len(op.L) != 1 || op.M == nil {
+		return
+	}
+	ew, err := NewEventWrapper(ctx, w, id)
+	if err != nil {
+		return
+	}
+	want := func(raw string) string { return refHmac(ew.(*aead.Wrapper), es, ei, []byte(raw)) }
+	verifAssert(op.Tok == want(a), "C16.everywhere.direct-field")
+	verifAssert(op.P.H == want(b), "C16.everywhere.behind-pointer")
+	verifAssert(op.L[0].H == want(c), "C16.everywhere.slice-of-structs")
+	if one, ok := op.M["one"].(*evItem); ok {
+		verifAssert(one.H == want(d), "C16.everywhere.struct-in-map")
+	} else {
+		verifAssert(false, "C16.everywhere.struct-in-map-kept")
+	}
+	if many, ok := op.M["many"].([]evItem); ok && len(many) == 1 {
+		verifAssert(many[0].H == want(f), "C16.everywhere.slice-of-structs-in-map")
+	} else {
+		verifAssert(false, "C16.everywhere.slice-in-map-kept")
+	}
+	verifReach("C16.everywhere.end")
+}
